@@ -743,6 +743,12 @@ static Result exec(const std::string& line) {
     res.oracle = "ok trivial " + why;
     return res;
   }
+  // a case takes milliseconds; a message sent to the wrong process or on the wrong communicator is never received: do
+  // not wait for the general per-case alarm of runMpi (it is re-armed for the next case there)
+  {
+    unsigned left = alarm(0);
+    alarm(left ? std::min(left, 30u) : 30u);
+  }
   // the communicator of the case
   MPI_Comm comm = MPI_COMM_WORLD;
   const int role = c.roleOf(wrank);
